@@ -17,10 +17,12 @@ F == INSTANCE FormatRules
 D == INSTANCE DocRules
 NoRet == F!NoRet
 
-ChainFmts == <<"class", "pydantic", "function", "argparse", "docstring">>
+\* "docstring_keep": the ReST docstring read back with the library's own defaults -- the sentence `Defaults to ..` stays in the description
+\* (hop "docstring" strips it again); names, types and defaults must come back all the same
+ChainFmts == <<"class", "pydantic", "function", "argparse", "docstring", "docstring_keep">>
 \* the fixed configuration each format is used with inside a chain: defaults live in code for the code formats,
 \* a docstring has nowhere else to carry them
-CfgOf(f) == IF f = "docstring" THEN [style |-> "rest", edd |-> TRUE, et |-> TRUE]
+CfgOf(f) == IF f \in {"docstring", "docstring_keep"} THEN [style |-> "rest", edd |-> TRUE, et |-> TRUE]
             ELSE IF f = "docstring_google" THEN [style |-> "google", edd |-> TRUE, et |-> TRUE]
             ELSE IF f = "docstring_numpydoc" THEN [style |-> "numpydoc", edd |-> TRUE, et |-> TRUE]
             ELSE [fmt |-> f, style |-> "rest", edd |-> FALSE, ann |-> TRUE, kwonly |-> TRUE]
@@ -39,7 +41,7 @@ Rets == IF Mode = "chain" THEN {NoRet} ELSE {NoRet, [typ |-> "int", def |-> "abs
 
 \* ---- one round trip on the abstract interface ------------------------------------------------------
 Top == [doc |-> "TOP", params |-> <<>>, ret |-> NoRet]
-DocFmts == {"docstring", "docstring_google", "docstring_numpydoc"}
+DocFmts == {"docstring", "docstring_keep", "docstring_google", "docstring_numpydoc"}
 \* json_schema and the SQLAlchemy variants have their own modules (JsonSchema.tla, Sql.tla); inside the conversion machine
 \* their round trip is the identity on their own domain (what C05/C06 demand), plus Sql's EnsurePK on the first round
 DataFmts == {"json_schema", "sqlalchemy", "sqlalchemy_table"}
